@@ -117,7 +117,7 @@ func (s *FilterReader) getAllHashes(expr influxql.Expr) {
 			leftV := n.LHS.(*influxql.VarRef).Val
 			var currTokenizer tokenizer.Tokenizer
 			if split, ok := s.splitMap[leftV]; ok {
-				currTokenizer = tokenizer.NewSimpleGramTokenizer(split, s.version, s.missSplitIndex[leftV])
+				currTokenizer = tokenizer.NewPhraseTokenizer(split, s.version, s.missSplitIndex[leftV])
 			} else {
 				return
 			}
@@ -286,6 +286,10 @@ func (s *VerticalFilterReader) hitExpr(expr influxql.Expr) bool {
 			}
 			val := n.RHS.(*influxql.StringLiteral).Val
 			hashValues := s.hashes[val]
+			if len(hashValues) == 0 {
+				// a phrase without a token cannot be looked up: it may be present
+				return true
+			}
 			isExist := false
 			for _, hash := range hashValues {
 				isExist = true
@@ -451,7 +455,7 @@ func (s *LineFilterReader) hitExpr(expr influxql.Expr) bool {
 			leftV := n.LHS.(*influxql.VarRef).Val
 			var currTokenizer tokenizer.Tokenizer
 			if split, ok := s.splitMap[leftV]; ok {
-				currTokenizer = tokenizer.NewSimpleGramTokenizer(split, s.version, s.missSplitIndex[leftV])
+				currTokenizer = tokenizer.NewPhraseTokenizer(split, s.version, s.missSplitIndex[leftV])
 			} else {
 				return true
 			}
@@ -461,6 +465,10 @@ func (s *LineFilterReader) hitExpr(expr influxql.Expr) bool {
 					continue
 				}
 				hashValues = append(hashValues, currTokenizer.CurrentHash())
+			}
+			if len(hashValues) == 0 {
+				// a phrase without a token cannot be looked up: it may be present
+				return true
 			}
 
 			blockOffset := s.currentBlockId * logstore.GetConstant(s.version).FilterDataDiskSize
